@@ -208,7 +208,10 @@ def check_call(p, name, base0, other, call, depth_tag=""):
                     if ml in bsym:  # two inputs of `other` identified with the same base gate: cannot be separated
                         ok = False
                     bsym[ml] = osym[oi]
-                if ok and all(k in sub.gates and sub.gates[k].gate_type == G.INPUT for k in bsym):
+                if ok and list(sub.inputs) != [mapping[oi] for oi in other.inputs]:
+                    # a function is positional: the extracted circuit lists its inputs in the attached circuit's order
+                    problems.append(f"block {call['name']!r}.into_circuit() lists its inputs as {list(sub.inputs)}, the attached circuit's inputs in their order are {[mapping[oi] for oi in other.inputs]}")
+                elif ok and all(k in sub.gates and sub.gates[k].gate_type == G.INPUT for k in bsym):
                     sb = sub.evaluate_circuit(dict(bsym))
                     dd = [symeval.states_differ(oth[a], sb[b]) for a, b in zip(other.outputs, sub.outputs)]
                     r, m = p.check([z3.Or(*dd)] if dd else [z3.BoolVal(False)], label=f"block {name}")
@@ -247,6 +250,7 @@ def check_call(p, name, base0, other, call, depth_tag=""):
             "    try:\n"
             "        sub=base.get_block(call['name']).into_circuit()\n"
             "        if len(set(mp[k] for k in other.inputs))==len(other.inputs) and (len(set(sub.inputs))!=len(sub.inputs) or circ.wf_problems(sub)): bad.append(('extracted block ill formed', list(sub.inputs)))\n"
+            "        if len(set(mp[k] for k in other.inputs))==len(other.inputs) and list(sub.inputs)!=[mp[k] for k in other.inputs]: bad.append(('block input order', list(sub.inputs)))\n"
             "        for x in itertools.product((False,True), repeat=len(other.inputs)):\n"
             "            a=dict(zip(other.inputs,x)); eo_=ref_concrete(circ.netlist_of(other),a)\n"
             "            sb=sub.evaluate_circuit({mp[k]:v for k,v in a.items()})\n"
